@@ -328,7 +328,12 @@ func produce(emit func(Case)) {
 	// across int and float, in four filter positions
 	if on("cmp") {
 		n := comparisonBox(func(p Path, t *Node) { add(p, t, "comparison_box", allReps) })
-		rep.Exhaustive = append(rep.Exhaustive, fmt.Sprintf("filter comparisons: 6 operators x path left/right x 12 constants x 13 elements (9, 10, 11, 9.0, 10.0, 11.0, 10.5, 0, 0.0, -0.0, -1, 3, 3.0) x 5 filter positions (%d paths)", n))
+		rep.Exhaustive = append(rep.Exhaustive, fmt.Sprintf("filter comparisons: 6 operators x path left/right x 19 constants x 20 elements (9, 10, 11, 9.0, 10.0, 11.0, 10.5, 0, 0.0, -0.0, -1, 3, 3.0, -2, -3, -2.0, -2.5, -1.5, -0.5, 2.5) x 5 filter positions (%d paths)", n))
+	}
+	// 3a'. filters below the root that read from `$` (the query argument)
+	if on("root") {
+		n := rootBox(func(p Path, t *Node) { add(p, t, "root_box", allReps) })
+		rep.Exhaustive = append(rep.Exhaustive, fmt.Sprintf("filters reading from $: 6 operators x $-operand left/right x 7 filter positions below the root (member, member.member, wildcard, descent, multi-valued $-path, inner and last) x 11 trees (int/float/string/null keys against int and float members, -2 next to -2.5), existence, negation, conjunction, filter under filter, $ in a nested filter (%d paths)", n))
 	}
 	// 3b. boundary families named by the properties
 	if on("bound") {
@@ -563,7 +568,7 @@ func (w *worker) runC05(c *Case, pw, dw string) error {
 // allFlags are the deviation flags of the model (Cfg). "P" is the pinned configuration, the model of the
 // code as it is; the driver tells which flags it has on (pinnedLetters). VERIF_FIXED=<letters> runs the
 // check with those flags off as well (to try the harness against a tree patched with a proposed fix).
-const allFlags = "esncyowurlzmtfghda"
+const allFlags = "esncyowurlzmtfghdakpq"
 
 var pinnedLetters = allFlags // set from the driver at start-up
 var pinnedFlags = "P"
@@ -623,6 +628,9 @@ var flagSlug = map[byte]string{
 	'h': "has-typed-map",
 	'd': "has-typed-descent",
 	'a': "walk-typed-array",
+	'k': "nested-filter-root",
+	'p': "locate-filter-root",
+	'q': "walk-filter-root",
 }
 
 func (w *worker) explainC05(c *Case, pw, dw string, r Rep, specVals []string, ordered bool) (string, string, error) {
@@ -636,7 +644,7 @@ func (w *worker) explainC05(c *Case, pw, dw string, r Rep, specVals []string, or
 		}
 		return splitVals(a)
 	}
-	ans, err := w.ask(c, pw, dw, []query{{op, r.String(), "-"}, {op, r.String(), pinnedFlags}, {op, r.String(), without('e')}, {op, r.String(), without('s')}})
+	ans, err := w.ask(c, pw, dw, []query{{op, r.String(), "-"}, {op, r.String(), pinnedFlags}, {op, r.String(), without('e')}, {op, r.String(), without('s')}, {op, r.String(), without('k')}})
 	if err != nil {
 		return "", "", err
 	}
@@ -664,6 +672,9 @@ func (w *worker) explainC05(c *Case, pw, dw string, r Rep, specVals []string, or
 		}
 		if ans[3] != ans[1] {
 			flags += "s"
+		}
+		if ans[4] != ans[1] && pinned('k') && c.p.hasNestedRoot() {
+			flags += "k" // a `$` inside a filter nested in a script's path is bound to the element under test
 		}
 		if flags != "" {
 			return "C05-" + flagSlug[flags[0]], "flags=" + flags, nil
@@ -853,7 +864,7 @@ func (w *worker) runC11(c *Case, pw, dw string) error {
 		if !ok {
 			continue
 		}
-		if r != repSimple && c.p.has('f') && !c.p.sameTruth(c.t.all(nil), r) {
+		if r != repSimple && c.p.has('f') && !c.p.sameTruth(c.t, r) {
 			// the script itself evaluates differently on this representation (a nested path inside the script
 			// meets one of the representation deviations): scripts are C12's subject, the case is left out
 			rep.Count("skipped.script_differs_on."+r.String(), 1)
@@ -968,8 +979,8 @@ var flagsFor = map[string]string{
 	"gets":      "esmt",
 	"first":     "esmtfg",
 	"has":       "esmtfghd",
-	"locate":    "esnycomt",
-	"walk":      "esnycwat",
+	"locate":    "esnycomtp",
+	"walk":      "esnycwatq",
 	"nodes":     "esurz",
 	"firstnode": "esurzl",
 }
